@@ -1,4 +1,441 @@
-import BctVerif.Model.Rewire
+import BctVerif.Lemmas.RewireInv
+
+/-!
+# C01 — degree-preserving rewiring keeps every node's degree and the weight multiset
+
+Theorems about the *executable* model `Bct.Rewire` (the one the correspondence check runs against
+bct's `randmio_*`, `latmio_*`, `randomize_graph_partial_und`).  `RwInv und R0 s` collects the
+observable clauses of the property (row/column support counts = out/in degree, multiset of cell
+values, diagonal, symmetry (undirected), row sums = out-strength (directed), `eff = 0 → R = R0`)
+together with the edge-list/matrix consistency that makes them inductive.
+
+Main results, for every size `n`, every integer matrix, every configuration and **every list of
+draws** (= every seed):
+* `attempt_inv`, `attempts_inv`, `iters_inv`, `untilSwaps_inv` — the invariant is preserved by one
+  attempt and by the budgeted / swap-counting loops;
+* `mkState_inv` — it holds initially (empty diagonal; symmetric input for the undirected routines);
+* `runBudget_spec` — hence every successful run of the model satisfies all clauses, and
+  `runBudget_zero` — zero requested rewirings return the input unchanged;
+* `latt_reindex`, `latt_degrees` — latticisers: `Rlatt` re-indexed by the node ordering is `Rrp`, and
+  degrees hold under the caller's numbering.
+-/
+open Finset
+
 namespace Bct.C01
-theorem placeholder : True := trivial
+open Bct Bct.Rewire Bct.RewireFun Bct.RewireInv
+
+variable {n k : ℕ}
+
+/-! ### one attempt -/
+
+theorem pickPair_spec (s : St n k) : ∀ (fuel : ℕ) (ds : List ℕ) (e1 e2 : Fin k) (rest : List ℕ),
+    pickPair s fuel ds = .ok ((e1, e2), rest) →
+    s.iv e1 ≠ s.iv e2 ∧ s.iv e1 ≠ s.jv e2 ∧ s.jv e1 ≠ s.iv e2 ∧ s.jv e1 ≠ s.jv e2 := by
+  intro fuel
+  induction fuel with
+  | zero => intro ds e1 e2 rest h; simp [pickPair] at h
+  | succ fuel ih =>
+    intro ds e1 e2 rest h
+    match ds, h with
+    | x1 :: x2 :: tl, h =>
+      simp only [pickPair, bind, Except.bind] at h
+      cases h1 : asFin k x1 with
+      | error e => simp [h1] at h
+      | ok f1 =>
+        cases h2 : asFin k x2 with
+        | error e => simp [h1, h2] at h
+        | ok f2 =>
+          cases h3 : redraw f1 f2 tl with
+          | error e => simp [h1, h2, h3] at h
+          | ok pr =>
+            obtain ⟨f2', tl'⟩ := pr
+            simp only [h1, h2, h3] at h
+            split at h
+            · rename_i hd
+              simp only [Except.ok.injEq, Prod.mk.injEq] at h
+              obtain ⟨⟨rfl, rfl⟩, _⟩ := h
+              exact hd
+            · exact ih _ _ _ _ h
+
+theorem accept_guard (cfg : Cfg n) (R : AMat Int n) (a b c d : Fin n) (h : accept cfg R a b c d = true) :
+    R.toFun a d = 0 ∧ R.toFun c b = 0 := by
+  unfold accept at h
+  split at h
+  · simp at h
+  · rename_i hg
+    push Not at hg
+    exact hg
+
+/-- One pass of the attempt body preserves the invariant, whatever the draws and the configuration. -/
+theorem attempt_inv (cfg : Cfg n) (R0 : Mat n) (s s' : St n k) (ds rest : List ℕ) (ok : Bool)
+    (hrun : attempt cfg s ds = .ok (s', ok, rest)) (h : RwInv cfg.und R0 s) : RwInv cfg.und R0 s' := by
+  unfold attempt at hrun
+  simp only [bind, Except.bind] at hrun
+  cases hp : pickPair s ds.length ds with
+  | error e => simp [hp] at hrun
+  | ok pr =>
+    obtain ⟨⟨e1, e2⟩, rest1⟩ := pr
+    have hd := pickPair_spec s _ _ _ _ _ hp
+    have hne12 : e1 ≠ e2 := fun hh => hd.1 (by rw [hh])
+    simp only [hp] at hrun
+    cases hu : cfg.und with
+    | true =>
+      rw [hu] at h
+      simp only [hu, if_true] at hrun
+      match rest1, hrun with
+      | cn :: rest2, hrun =>
+        -- the state after the optional orientation flip
+        have key : ∀ s1 : St n k, RwInv true R0 s1 → s1.iv e1 = s.iv e1 → s1.jv e1 = s.jv e1 →
+            (s1.iv e2 = s.iv e2 ∧ s1.jv e2 = s.jv e2 ∨ s1.iv e2 = s.jv e2 ∧ s1.jv e2 = s.iv e2) →
+            (if accept cfg s1.R (s.iv e1) (s.jv e1) (s1.iv e2) (s1.jv e2) = true then
+              (Except.ok ({ R := swapUnd s1.R (s.iv e1) (s.jv e1) (s1.iv e2) (s1.jv e2), i := s1.i,
+                            j := (s1.j.set e1 (s1.jv e2)).set e2 (s.jv e1), eff := s1.eff + 1 }, true, rest2) :
+                Except Err (St n k × Bool × List ℕ))
+             else .ok (s1, false, rest2)) = .ok (s', ok, rest) → RwInv true R0 s' := by
+          intro s1 h1 ha hb hcd hr
+          split at hr
+          · rename_i hacc
+            have g := accept_guard cfg s1.R _ _ _ _ hacc
+            simp only [Except.ok.injEq, Prod.mk.injEq] at hr
+            obtain ⟨rfl, _, _⟩ := hr
+            have hd1 : s1.iv e1 ≠ s1.iv e2 ∧ s1.iv e1 ≠ s1.jv e2 ∧ s1.jv e1 ≠ s1.iv e2 ∧ s1.jv e1 ≠ s1.jv e2 := by
+              rw [ha, hb]
+              rcases hcd with ⟨hc, hd'⟩ | ⟨hc, hd'⟩
+              · rw [hc, hd']; exact hd
+              · rw [hc, hd']; exact ⟨hd.2.1, hd.1, hd.2.2.2, hd.2.2.1⟩
+            have := swapUnd_inv R0 s1 e1 e2 h1 hd1.1 hd1.2.1 hd1.2.2.1 hd1.2.2.2
+              (by rw [ha]; exact g.1) (by rw [hb]; exact g.2)
+            have heq : afterSwap true s1 e1 e2 =
+                { R := swapUnd s1.R (s.iv e1) (s.jv e1) (s1.iv e2) (s1.jv e2), i := s1.i,
+                  j := (s1.j.set e1 (s1.jv e2)).set e2 (s.jv e1), eff := s1.eff + 1 } := by
+              simp only [afterSwap, ha, hb, if_true]
+            rw [← heq]; exact this
+          · simp only [Except.ok.injEq, Prod.mk.injEq] at hr
+            obtain ⟨rfl, _, _⟩ := hr
+            exact h1
+        by_cases hc : coin cn = true
+        · simp only [hc, if_true] at hrun
+          refine key (flip s e2) (flip_inv R0 s e2 h) ?_ ?_ ?_ hrun
+          · rw [flip_iv]; simp [hne12]
+          · rw [flip_jv]; simp [hne12]
+          · right; rw [flip_iv, flip_jv]; simp
+        · simp only [hc] at hrun
+          exact key s h rfl rfl (Or.inl ⟨rfl, rfl⟩) hrun
+    | false =>
+      rw [hu] at h
+      simp only [hu, Bool.false_eq_true, if_false] at hrun
+      split at hrun
+      · rename_i hacc
+        have g := accept_guard cfg s.R _ _ _ _ hacc
+        simp only [Except.ok.injEq, Prod.mk.injEq] at hrun
+        obtain ⟨rfl, _, _⟩ := hrun
+        exact swapDir_inv R0 s e1 e2 h hd.1 hd.2.1 hd.2.2.1 hd.2.2.2 g.1 g.2
+      · simp only [Except.ok.injEq, Prod.mk.injEq] at hrun
+        obtain ⟨rfl, _, _⟩ := hrun
+        exact h
+
+/-! ### the loops -/
+
+theorem attempts_inv (cfg : Cfg n) (R0 : Mat n) : ∀ (budget : ℕ) (s s' : St n k) (ds rest : List ℕ),
+    attempts cfg budget s ds = .ok (s', rest) → RwInv cfg.und R0 s → RwInv cfg.und R0 s' := by
+  intro budget
+  induction budget with
+  | zero => intro s s' ds rest h hi; simp only [attempts, Except.ok.injEq, Prod.mk.injEq] at h; rw [← h.1]; exact hi
+  | succ b ih =>
+    intro s s' ds rest h hi
+    simp only [attempts, bind, Except.bind] at h
+    cases ha : attempt cfg s ds with
+    | error e => simp [ha] at h
+    | ok r =>
+      obtain ⟨s1, ok, rest1⟩ := r
+      have h1 := attempt_inv cfg R0 s s1 ds rest1 ok ha hi
+      simp only [ha] at h
+      split at h
+      · simp only [Except.ok.injEq, Prod.mk.injEq] at h; rw [← h.1]; exact h1
+      · exact ih _ _ _ _ h h1
+
+theorem iters_inv (cfg : Cfg n) (R0 : Mat n) (maxAtt : ℕ) : ∀ (it : ℕ) (s s' : St n k) (ds rest : List ℕ),
+    iters cfg maxAtt it s ds = .ok (s', rest) → RwInv cfg.und R0 s → RwInv cfg.und R0 s' := by
+  intro it
+  induction it with
+  | zero => intro s s' ds rest h hi; simp only [iters, Except.ok.injEq, Prod.mk.injEq] at h; rw [← h.1]; exact hi
+  | succ b ih =>
+    intro s s' ds rest h hi
+    simp only [iters, bind, Except.bind] at h
+    cases ha : attempts cfg (maxAtt + 1) s ds with
+    | error e => simp [ha] at h
+    | ok r =>
+      obtain ⟨s1, rest1⟩ := r
+      simp only [ha] at h
+      exact ih _ _ _ _ h (attempts_inv cfg R0 _ _ _ _ _ ha hi)
+
+theorem untilSwaps_inv (cfg : Cfg n) (R0 : Mat n) : ∀ (fuel need : ℕ) (s s' : St n k) (ds rest : List ℕ),
+    untilSwaps cfg fuel need s ds = .ok (s', rest) → RwInv cfg.und R0 s → RwInv cfg.und R0 s' := by
+  intro fuel
+  induction fuel with
+  | zero =>
+    intro need s s' ds rest h hi
+    cases need with
+    | zero => simp only [untilSwaps, Except.ok.injEq, Prod.mk.injEq] at h; rw [← h.1]; exact hi
+    | succ m => simp [untilSwaps] at h
+  | succ f ih =>
+    intro need s s' ds rest h hi
+    cases need with
+    | zero => simp only [untilSwaps, Except.ok.injEq, Prod.mk.injEq] at h; rw [← h.1]; exact hi
+    | succ m =>
+      simp only [untilSwaps, bind, Except.bind] at h
+      cases ha : attempt cfg s ds with
+      | error e => simp [ha] at h
+      | ok r =>
+        obtain ⟨s1, ok, rest1⟩ := r
+        simp only [ha] at h
+        exact ih _ _ _ _ _ h (attempt_inv cfg R0 s s1 ds rest1 ok ha hi)
+
+/-! ### the initial state -/
+
+def EmptyDiag (R : AMat Int n) : Prop := ∀ v, R.toFun v v = 0
+def Symm (R : AMat Int n) : Prop := ∀ i j, R.toFun i j = R.toFun j i
+
+theorem mem_edgeCells (src : EdgeSrc) (R : AMat Int n) (p : Fin n × Fin n) (hp : p ∈ edgeCells src R) :
+    R.toFun p.1 p.2 ≠ 0 ∧ (src = .tril → p.2.val ≤ p.1.val) ∧ (src = .triu1 → p.1.val < p.2.val) := by
+  simp only [edgeCells, List.mem_flatMap, List.mem_map, List.mem_filter, List.mem_finRange, true_and] at hp
+  obtain ⟨i, j, hj, rfl⟩ := hp
+  simp only [Bool.and_eq_true, bne_iff_ne, ne_eq] at hj
+  refine ⟨hj.1, ?_, ?_⟩
+  · intro h; subst h; simpa using hj.2
+  · intro h; subst h; simpa using hj.2
+
+theorem nodup_edgeCells (src : EdgeSrc) (R : AMat Int n) : (edgeCells src R).Nodup := by
+  unfold edgeCells
+  rw [List.nodup_flatMap]
+  refine ⟨?_, ?_⟩
+  · intro i _
+    refine List.Nodup.map ?_ ((List.nodup_finRange n).filter _)
+    intro x y h; simpa using h
+  · refine List.Pairwise.imp_of_mem ?_ (List.nodup_finRange n)
+    intro i i' _ _ hne
+    simp only [Function.onFun]
+    rw [List.disjoint_left]
+    intro p hp hp'
+    simp only [List.mem_map] at hp hp'
+    obtain ⟨_, _, rfl⟩ := hp
+    obtain ⟨_, _, h⟩ := hp'
+    exact hne (by simpa using (congrArg Prod.fst h).symm)
+
+theorem mkState_inv (und : Bool) (src : EdgeSrc) (R : AMat Int n) (hd : EmptyDiag R)
+    (hs : und = true → Symm R) (hsrc : und = true → src ≠ .all) :
+    RwInv und R.toFun (mkState R (edgeCells src R).toArray) := by
+  have hmem : ∀ e : Fin (edgeCells src R).toArray.size,
+      ((edgeCells src R).toArray[e]) ∈ edgeCells src R := by
+    intro e
+    have : (edgeCells src R).toArray[e] = (edgeCells src R)[e.val]'(by simpa using e.isLt) := by
+      simp
+    rw [this]; exact List.getElem_mem _
+  have hinj : ∀ e e' : Fin (edgeCells src R).toArray.size,
+      (edgeCells src R).toArray[e] = (edgeCells src R).toArray[e'] → e = e' := by
+    intro e e' h
+    have h1 : (edgeCells src R).toArray[e] = (edgeCells src R)[e.val]'(by simpa using e.isLt) := by simp
+    have h2 : (edgeCells src R).toArray[e'] = (edgeCells src R)[e'.val]'(by simpa using e'.isLt) := by simp
+    rw [h1, h2] at h
+    exact Fin.ext ((List.Nodup.getElem_inj_iff (nodup_edgeCells src R)).mp h)
+  have iv_eq : ∀ e, (mkState R (edgeCells src R).toArray).iv e = ((edgeCells src R).toArray[e]).1 := by
+    intro e; simp [St.iv, mkState]
+  have jv_eq : ∀ e, (mkState R (edgeCells src R).toArray).jv e = ((edgeCells src R).toArray[e]).2 := by
+    intro e; simp [St.jv, mkState]
+  refine ⟨fun _ => rfl, fun _ => rfl, rfl, fun _ => rfl, ?_, fun _ _ => rfl, ?_, fun _ => rfl⟩
+  · intro hu; exact hs hu
+  · refine ⟨?_, ?_, ?_, ?_⟩
+    · intro e; rw [iv_eq, jv_eq]; exact (mem_edgeCells src R _ (hmem e)).1
+    · intro e; rw [iv_eq, jv_eq]
+      intro hh
+      have := (mem_edgeCells src R _ (hmem e)).1
+      rw [← hh] at this
+      exact this (hd _)
+    · intro e e' hne; rw [iv_eq, jv_eq, iv_eq, jv_eq]
+      intro ⟨h1, h2⟩
+      exact hne (hinj e e' (Prod.ext h1 h2))
+    · intro hu e e' _; rw [iv_eq, jv_eq, iv_eq, jv_eq]
+      intro ⟨h1, h2⟩
+      have m := mem_edgeCells src R _ (hmem e)
+      have m' := mem_edgeCells src R _ (hmem e')
+      have hne0 : (edgeCells src R).toArray[e].1 ≠ (edgeCells src R).toArray[e].2 := by
+        intro hh; have := m.1; rw [← hh] at this; exact this (hd _)
+      have hne0' : (edgeCells src R).toArray[e'].1 ≠ (edgeCells src R).toArray[e'].2 := by
+        intro hh; have := m'.1; rw [← hh] at this; exact this (hd _)
+      cases src with
+      | all => exact hsrc hu rfl
+      | tril =>
+        have a1 := m.2.1 rfl
+        have a2 := m'.2.1 rfl
+        have b1 : (edgeCells .tril R).toArray[e].1.val ≠ (edgeCells .tril R).toArray[e].2.val := fun hh => hne0 (Fin.ext hh)
+        rw [h1, h2] at a1
+        omega
+      | triu1 =>
+        have a1 := m.2.2 rfl
+        have a2 := m'.2.2 rfl
+        rw [h1, h2] at a1
+        omega
+
+/-! ### whole runs -/
+
+/-- Every successful run of the model — any routine configuration, any budget, any draw list —
+returns a matrix satisfying all clauses of C01 relative to its input. -/
+theorem runBudget_spec (cfg : Cfg n) (R R' : AMat Int n) (itr eff : ℕ) (ds rest : List ℕ)
+    (hd : EmptyDiag R) (hs : cfg.und = true → Symm R) (hsrc : cfg.und = true → cfg.src ≠ .all)
+    (hrun : runBudget cfg R itr ds = .ok (R', eff, rest)) :
+    (∀ r, rowCnt R'.toFun r = rowCnt R.toFun r) ∧ (∀ c, colCnt R'.toFun c = colCnt R.toFun c) ∧
+    cellValues R'.toFun = cellValues R.toFun ∧ (∀ v, R'.toFun v v = R.toFun v v) ∧
+    (cfg.und = true → ∀ i j, R'.toFun i j = R'.toFun j i) ∧
+    (cfg.und = false → ∀ r, rowSum R'.toFun r = rowSum R.toFun r) ∧
+    (eff = 0 → R'.toFun = R.toFun) := by
+  have h0 := mkState_inv cfg.und cfg.src R hd hs hsrc
+  unfold runBudget at hrun
+  simp only [bind, Except.bind] at hrun
+  have fin : ∀ s : St n (edgeCells cfg.src R).toArray.size, RwInv cfg.und R.toFun s → R' = s.R → eff = s.eff →
+      (∀ r, rowCnt R'.toFun r = rowCnt R.toFun r) ∧ (∀ c, colCnt R'.toFun c = colCnt R.toFun c) ∧
+      cellValues R'.toFun = cellValues R.toFun ∧ (∀ v, R'.toFun v v = R.toFun v v) ∧
+      (cfg.und = true → ∀ i j, R'.toFun i j = R'.toFun j i) ∧
+      (cfg.und = false → ∀ r, rowSum R'.toFun r = rowSum R.toFun r) ∧
+      (eff = 0 → R'.toFun = R.toFun) := by
+    intro s hi h1 h2
+    subst h1; subst h2
+    exact ⟨hi.row, hi.col, hi.vals, hi.diag, hi.symm, hi.rsum, hi.eff0⟩
+  cases hden : cfg.attDen with
+  | some den =>
+    simp only [hden] at hrun
+    split at hrun
+    · cases hrun
+    · rename_i v hi
+      simp only [Except.ok.injEq, Prod.mk.injEq] at hrun
+      exact fin v.1 (iters_inv cfg R.toFun _ _ _ _ _ _ hi h0) hrun.1.symm hrun.2.1.symm
+  | none =>
+    simp only [hden] at hrun
+    split at hrun
+    · cases hrun
+    · rename_i v hi
+      simp only [Except.ok.injEq, Prod.mk.injEq] at hrun
+      exact fin v.1 (untilSwaps_inv cfg R.toFun _ _ _ _ _ _ hi h0) hrun.1.symm hrun.2.1.symm
+
+/-- Zero requested rewirings: the input comes back unchanged and no draw is consumed. -/
+theorem runBudget_zero (cfg : Cfg n) (R : AMat Int n) (ds : List ℕ) :
+    runBudget cfg R 0 ds = .ok (R, 0, ds) := by
+  unfold runBudget
+  cases hden : cfg.attDen with
+  | some den => simp [hden, iters, mkState, bind, Except.bind]
+  | none => simp [hden, untilSwaps, mkState, bind, Except.bind]
+
+/-! ### latticisers: the node permutation is undone by its inverse -/
+
+theorem invPerm_left (p : Fin n → Fin n) (hp : Function.Injective p) (i : Fin n) : invPerm p (p i) = i := by
+  unfold invPerm
+  cases h : (List.finRange n).find? (fun x => p x == p i) with
+  | none =>
+    rw [List.find?_eq_none] at h
+    have := h i (List.mem_finRange i)
+    simp at this
+  | some x =>
+    have := List.find?_some h
+    simp only [beq_iff_eq] at this
+    exact hp this
+
+theorem invPerm_right (p : Fin n → Fin n) (hp : Function.Injective p) (i : Fin n) : p (invPerm p i) = i := by
+  obtain ⟨x, rfl⟩ := (Finite.injective_iff_surjective.mp hp) i
+  rw [invPerm_left p hp]
+
+/-- "the matrix returned in latticisation order is the original-order result re-indexed by the returned
+node ordering": `Rlatt[ix_(ind_rp, ind_rp)] = Rrp` -/
+theorem latt_reindex (Rrp : AMat Int n) (p : Fin n → Fin n) (hp : Function.Injective p) :
+    permMat (permMat Rrp (invPerm p)) p = Rrp := by
+  apply AMat.ext_get
+  intro i j
+  simp only [permMat, AMat.get_ofFn, invPerm_left p hp]
+
+theorem toFun_permMat (X : AMat Int n) (f : Fin n → Fin n) :
+    (permMat X f).toFun = fun i j => X.toFun (f i) (f j) := by
+  funext i j; simp [AMat.toFun, permMat]
+
+theorem rowCnt_perm (X : Mat n) (f : Equiv.Perm (Fin n)) (r : Fin n) :
+    rowCnt (fun i j => X (f i) (f j)) r = rowCnt X (f r) := by
+  unfold rowCnt
+  exact Equiv.sum_comp f (fun j => if X (f r) j ≠ 0 then 1 else 0)
+
+theorem colCnt_perm (X : Mat n) (f : Equiv.Perm (Fin n)) (c : Fin n) :
+    colCnt (fun i j => X (f i) (f j)) c = colCnt X (f c) := by
+  unfold colCnt
+  exact Equiv.sum_comp f (fun i => if X i (f c) ≠ 0 then 1 else 0)
+
+theorem rowSum_perm (X : Mat n) (f : Equiv.Perm (Fin n)) (r : Fin n) :
+    rowSum (fun i j => X (f i) (f j)) r = rowSum X (f r) := by
+  unfold rowSum
+  exact Equiv.sum_comp f (fun j => X (f r) j)
+
+theorem cellValues_perm (X : Mat n) (f : Equiv.Perm (Fin n)) :
+    cellValues (fun i j => X (f i) (f j)) = cellValues X :=
+  cellValues_comp X (Equiv.prodCongr f f)
+
+/-- Latticisers under the caller's numbering: if the rewired matrix `Rrp` satisfies the C01 clauses
+relative to the permuted input `R[ix_(p,p)]`, then `Rlatt = Rrp[ix_(p⁻¹,p⁻¹)]` satisfies them relative to
+the caller's `R` — for every node permutation `p`. -/
+theorem latt_spec (R Rrp : AMat Int n) (p : Fin n → Fin n) (hp : Function.Injective p)
+    (hrow : ∀ r, rowCnt Rrp.toFun r = rowCnt (permMat R p).toFun r)
+    (hcol : ∀ c, colCnt Rrp.toFun c = colCnt (permMat R p).toFun c)
+    (hvals : cellValues Rrp.toFun = cellValues (permMat R p).toFun)
+    (hdiag : ∀ v, Rrp.toFun v v = (permMat R p).toFun v v)
+    (hsum : ∀ r, rowSum Rrp.toFun r = rowSum (permMat R p).toFun r) :
+    let Rlatt := permMat Rrp (invPerm p)
+    (∀ r, rowCnt Rlatt.toFun r = rowCnt R.toFun r) ∧ (∀ c, colCnt Rlatt.toFun c = colCnt R.toFun c) ∧
+    cellValues Rlatt.toFun = cellValues R.toFun ∧ (∀ v, Rlatt.toFun v v = R.toFun v v) ∧
+    (∀ r, rowSum Rlatt.toFun r = rowSum R.toFun r) := by
+  intro Rlatt
+  have hbij : Function.Bijective p := ⟨hp, Finite.injective_iff_surjective.mp hp⟩
+  let f : Equiv.Perm (Fin n) := Equiv.ofBijective p hbij
+  have hq : Function.Bijective (invPerm p) :=
+    ⟨fun x y h => by have := congrArg p h; rwa [invPerm_right p hp, invPerm_right p hp] at this,
+     fun x => ⟨p x, invPerm_left p hp x⟩⟩
+  let g : Equiv.Perm (Fin n) := Equiv.ofBijective (invPerm p) hq
+  have e1 : Rlatt.toFun = fun i j => Rrp.toFun (g i) (g j) := toFun_permMat _ _
+  have e2 : (permMat R p).toFun = fun i j => R.toFun (f i) (f j) := toFun_permMat _ _
+  have fg : ∀ x, f (g x) = x := fun x => invPerm_right p hp x
+  refine ⟨?_, ?_, ?_, ?_, ?_⟩
+  · intro r; rw [e1, rowCnt_perm, hrow, e2, rowCnt_perm, fg]
+  · intro c; rw [e1, colCnt_perm, hcol, e2, colCnt_perm, fg]
+  · rw [e1, cellValues_perm, hvals, e2, cellValues_perm]
+  · intro v
+    have h1 : Rlatt.toFun v v = Rrp.toFun (g v) (g v) := by rw [e1]
+    have h2 : (permMat R p).toFun (g v) (g v) = R.toFun (f (g v)) (f (g v)) := by rw [e2]
+    rw [h1, hdiag, h2, fg]
+  · intro r; rw [e1, rowSum_perm, hsum, e2, rowSum_perm, fg]
+
+/-- the permutation the driver builds from a recorded `rng.permutation(n)` is injective -/
+theorem listToPerm_injective (pl : List ℕ) (p : Fin n → Fin n) (h : listToPerm n pl = some p) :
+    Function.Injective p := by
+  unfold listToPerm at h
+  split at h
+  · cases h
+  · rename_i hall
+    split at h
+    · rename_i hh
+      simp only [Option.some.injEq] at h
+      subst h
+      intro x y hxy
+      simp only [Fin.mk.injEq] at hxy
+      have hall' : ∀ v ∈ pl, v < n := by simpa using hall
+      have hx : pl[x.val]'(by omega) < n := hall' _ (List.getElem_mem _)
+      have hy : pl[y.val]'(by omega) < n := hall' _ (List.getElem_mem _)
+      rw [Nat.mod_eq_of_lt hx, Nat.mod_eq_of_lt hy] at hxy
+      exact Fin.ext ((List.Nodup.getElem_inj_iff hh.2).mp hxy)
+    · cases h
+
+/-! ### non-vacuity: concrete runs satisfying the hypotheses and performing swaps -/
+
+def exDir : AMat Int 4 := AMat.ofFn fun i j => if (i.val, j.val) ∈ [(0, 1), (2, 3), (1, 2)] then 5 else 0
+def cfgDir : Cfg 4 := { und := false, conn := false, lat := none, mask := none, src := .all, attDen := some 12 }
+example : EmptyDiag exDir := by unfold EmptyDiag; decide
+example : (runBudget cfgDir exDir 1 [0, 2, 0, 2, 0, 2]).toOption.map (fun r => r.2.1) = some 3 := by decide
+
+def exUnd : AMat Int 4 := AMat.ofFn fun i j => if (i.val, j.val) ∈ [(0, 1), (1, 0), (2, 3), (3, 2)] then 1 else 0
+def cfgUnd : Cfg 4 := { und := true, conn := false, lat := none, mask := none, src := .tril, attDen := some 12 }
+example : EmptyDiag exUnd ∧ Symm exUnd := by unfold EmptyDiag Symm; decide
+example : (runBudget cfgUnd exUnd 1 [0, 1, 9007199254740991, 0, 1, 0]).toOption.map (fun r => r.2.1) = some 2 := by decide
+
 end Bct.C01
